@@ -181,6 +181,24 @@ example :
       (parseNode (size doc) (renderL 2 0 doc ++ ['\n'])).map (fun p => (renderL 0 0 p.1, p.2)) =
         some (renderL 0 0 doc, ['\n']) := by decide +kernel
 
+
+/-! ## escaping is injective and character-wise (all strings) -/
+
+/-- escaping loses nothing: two different texts never escape to the same characters -/
+theorem escape_text_injective (s t : List Char) (h : escT s = escT t) : s = t := by
+  rw [← escape_text_rt s, ← escape_text_rt t, h]
+theorem escape_attr_injective (s t : List Char) (h : escA s = escA t) : s = t := by
+  rw [← escape_attr_rt s, ← escape_attr_rt t, h]
+
+/-- escaping is character-wise: the escaped form of a text does not depend on what surrounds it -/
+theorem escape_text_append (s t : List Char) : escT (s ++ t) = escT s ++ escT t := by
+  induction s with
+  | nil => rfl
+  | cons c r ih => simp only [List.cons_append, escT, ih, List.append_assoc]
+theorem escape_attr_append (s t : List Char) : escA (s ++ t) = escA s ++ escA t := by
+  induction s with
+  | nil => rfl
+  | cons c r ih => simp only [List.cons_append, escA, ih, List.append_assoc]
 end C16
 
 #print axioms C16.escape_text_rt
@@ -192,3 +210,7 @@ end C16
 #print axioms C16.to_string_decodes
 #print axioms C16.to_string_injective
 #print axioms C16.canonical_tree_recovered
+#print axioms C16.escape_text_injective
+#print axioms C16.escape_attr_injective
+#print axioms C16.escape_text_append
+#print axioms C16.escape_attr_append
